@@ -62,7 +62,13 @@ class Unit:
             for fs in specs:
                 fi = self.index.find(fs['qname'], sig=fs.get('sig'), mangled=fs.get('mangled'), targs=fs.get('targs'))
                 cfg = self.cfg
-                fl = cxx2c.FnLower(cfg, fi, fs['cname'], self.index).lower()
+                saved_uf = cfg.uf_ops
+                if 'uf_ops' in fs:     # per-function choice of the arithmetic model (machine floating point when empty)
+                    cfg.uf_ops = dict(fs['uf_ops'])
+                try:
+                    fl = cxx2c.FnLower(cfg, fi, fs['cname'], self.index).lower()
+                finally:
+                    cfg.uf_ops = saved_uf
                 self.lowered[fs['cname']] = fl
                 txt = '\n'.join(fl.body)
                 throws = ('verif_exc = EXC_' in txt) or ('if (verif_exc)' in txt and not fl_catches_all(txt))
